@@ -2793,6 +2793,136 @@ def loopdef(repo, out):
         raise AnalysisError(f'{fn.ident}: no sub-jacobian constructor call in the loop')
 
 
+# =========================================================================== C11.mask-cache
+VEC = 'openmdao/vectors/vector.py'
+DEFVEC = 'openmdao/vectors/default_vector.py'
+SYSTEM = 'openmdao/core/system.py'
+_FAITHFUL_WRAPPERS = {'frozenset', 'tuple', 'sorted', 'set'}
+_LOSSY_WRAPPERS = {'len', 'bool', 'any', 'all', 'min', 'max', 'sum', 'type'}
+
+
+def _self_reads(repo, rel, cls, method, seen=None):
+    """Attributes of self read by a method, following self.<method>() calls through the given classes."""
+    seen = seen if seen is not None else set()
+    out_ = set()
+    for r, c in ((rel, cls), (DEFVEC, 'DefaultVector')):
+        f = repo.try_func(r, f'{c}.{method}')
+        if f is None or f.ident in seen:
+            continue
+        seen.add(f.ident)
+        for n in astx.walk(f.node):
+            if isinstance(n, ast.Attribute) and isinstance(n.value, ast.Name) and n.value.id == 'self' and \
+                    isinstance(n.ctx, ast.Load):
+                par = getattr(n, '_parent', None)
+                if isinstance(par, ast.Call) and par.func is n:
+                    out_ |= _self_reads(repo, rel, cls, n.attr, seen)
+                else:
+                    out_.add(n.attr)
+    return out_
+
+
+@rule('C11.mask-cache', floor=1)
+def mask_cache(repo, out):
+    """SplitJacobian._get_mask: a cached input mask is keyed by every scope attribute of the vector that
+    Vector.get_mask() depends on (the matvec scope `_names`), on the read and on the write side."""
+    fn = repo.func(JAC, 'SplitJacobian._get_mask')
+    fa = FA(fn)
+    if len(fa.params) < 2:
+        raise AnalysisError('SplitJacobian._get_mask signature changed')
+    vec = fa.params[1]
+    # what the mask depends on, and which of that changes between applications (set by _matvec_context)
+    deps = _self_reads(repo, VEC, 'Vector', 'get_mask')
+    mc = repo.func(SYSTEM, 'System._matvec_context')
+    scoped = {t.attr for st in astx.walk_stmts(mc.node.body) if isinstance(st, ast.Assign)
+              for t in st.targets if isinstance(t, ast.Attribute) and isinstance(t.value, ast.Name)}
+    required = sorted(deps & scoped)
+    if not required:
+        raise AnalysisError('Vector.get_mask does not read any attribute set by System._matvec_context '
+                            f'(reads {sorted(deps)}, context sets {sorted(scoped)})')
+    # the stores of a get_mask() result into a self.<cache>[key]
+    stores = []
+    for n in fa.g.nodes:
+        if n.kind == 'stmt' and isinstance(n.ast, ast.Assign) and len(n.ast.targets) == 1 and \
+                isinstance(n.ast.targets[0], ast.Subscript):
+            t = n.ast.targets[0]
+            cp = fa.xp(t.value, n)
+            o = fa.origin(n.ast.value, n)
+            if cp and cp.startswith('self.') and isinstance(o, ast.Call) and astx.callee_attr(o) == 'get_mask' \
+                    and astx.path(astx.receiver(o)) == vec:
+                stores.append((n, cp, fa.expand(t.slice, n)))
+    getm = [n for n in fa.g.nodes if any(astx.callee_attr(c) == 'get_mask' for c in n.calls())]
+    if not getm:
+        out.unsure(fn, fn.node, 'no call of <vector>.get_mask() in SplitJacobian._get_mask')
+        return
+    if not stores:
+        if any(astx.mentions(n.ast, '_mask_caches') for n in fa.g.nodes if n.kind == 'stmt'):
+            out.unsure(fn, fn.node, 'mask cache is used but the store of the get_mask() result was not recognised')
+        else:
+            out.ok(fn, getm[0].ast, 'the mask is recomputed from the vector on every call (no cache)')
+        return
+    caches = {cp for _, cp, _ in stores}
+    reads = []
+    for n in fa.g.nodes:
+        for e in n.exprs():
+            for x in astx.walk(e):
+                if isinstance(x, ast.Subscript) and isinstance(x.ctx, ast.Load) and fa.xp(x.value, n) in caches:
+                    reads.append((n, fa.expand(x.slice, n)))
+                elif isinstance(x, ast.Call) and astx.callee_attr(x) in ('get', 'pop', 'setdefault') and x.args and \
+                        fa.xp(astx.receiver(x), n) in caches:
+                    reads.append((n, fa.expand(x.args[0], n)))
+                elif isinstance(x, ast.Compare) and len(x.ops) == 1 and isinstance(x.ops[0], (ast.In, ast.NotIn)) \
+                        and fa.xp(x.comparators[0], n) in caches:
+                    reads.append((n, fa.expand(x.left, n)))
+
+    def keyx(e, n):
+        """Key expression with aliases expanded; a plain local name is followed to its definition."""
+        x = fa.expand(e, n)
+        if isinstance(x, ast.Name):
+            o, at = fa.origin_at(e if isinstance(e, ast.Name) else x, n)
+            x = fa.expand(o, at) if o is not x else x
+        return x
+    stores = [(n, cp, keyx(n.ast.targets[0].slice, n)) for n, cp, _ in stores]
+    reads = [(n, keyx(k, n)) for n, k in reads]
+
+    def covers(key, attr):
+        """'yes' if key contains <vec>.<attr> faithfully, 'lossy' if only through a lossy function, else 'no'."""
+        want = f'{vec}.{attr}'
+        elts = key.elts if isinstance(key, ast.Tuple) else [key]
+        res = 'no'
+        for e in elts:
+            x = e
+            lossy = False
+            while isinstance(x, ast.Call) and len(x.args) == 1 and not x.keywords and \
+                    astx.call_name(x) in _FAITHFUL_WRAPPERS | _LOSSY_WRAPPERS:
+                lossy = lossy or astx.call_name(x) in _LOSSY_WRAPPERS
+                x = x.args[0]
+            if astx.path(x) == want:
+                if not lossy:
+                    return 'yes'
+                res = 'lossy'
+            elif astx.mentions(e, attr) and res == 'no':
+                res = 'unknown'
+        return res
+    for attr in required:
+        w = [(n, k, covers(k, attr)) for n, _, k in stores]
+        r = [(n, k, covers(k, attr)) for n, k in reads]
+        w_miss = [x for x in w if x[2] in ('no', 'lossy')]
+        r_miss = [x for x in r if x[2] in ('no', 'lossy')]
+        unk = [x for x in w + r if x[2] == 'unknown']
+        if w_miss and (r_miss or not reads):
+            n, k, _ = w_miss[0]
+            out.bad(fn, n.ast, f'the input mask returned by {vec}.get_mask() depends on {vec}.{attr} (the matvec scope set by '
+                    f'System._matvec_context) but it is cached under the key `{astx.src(k)}`, which does not determine '
+                    f'{vec}.{attr}: the mask of the first scope seen is reused for every later scope, so inputs outside '
+                    'the current scope are (un)masked wrongly in the dr/di product', key=f'mask-cache-key:{attr}')
+        elif unk or w_miss or r_miss:
+            n = (unk or w_miss or r_miss)[0][0]
+            out.unsure(fn, n.ast, f'cache key uses {vec}.{attr} in an unrecognised way, or read and write keys differ')
+        else:
+            out.ok(fn, stores[0][0].ast, f'cached mask is keyed by {vec}.{attr} on {len(reads)} read(s) and {len(stores)} '
+                   'write(s)')
+
+
 # =========================================================================== self-test
 _SET_DTYPE_HEAD = ("        self._in_view = None\n        self._out_view = None\n        self._res_view = None\n\n"
                    "        if dtype.kind == 'f':")
@@ -3155,7 +3285,31 @@ selftest(
            '        weighted = self._res_view[self.cols] * val\n'
            '        self._in_view += bincount(self.rows, weights=weighted, minlength=self.parent_ncols)', 'C11.apply'),
 
+    Mutant('seed2-csr-factor-in-place-on-subjac-data', CSR, '            data = data * subjac.factor',
+           '            data *= subjac.factor', 'C11.factor-once'),
+    Mutant('seed2-dense-coo-branch-factor-dropped', DENSE,
+           '            if subjac.factor is not None:\n'
+           '                self._coo.data[self._coo_slices[subjac.key]] *= subjac.factor\n', '', 'C11.factor-once'),
+    # ---- mask-cache
+    Mutant('seed2-mask-cached-per-mode-only', JAC, 'self._mask_caches[(d_inputs._names, mode)]', 'self._mask_caches[mode]',
+           'C11.mask-cache', nth='all'),
+    Mutant('mask-cache-key-len-of-names', JAC, 'self._mask_caches[(d_inputs._names, mode)]',
+           'self._mask_caches[(len(d_inputs._names), mode)]', 'C11.mask-cache', nth='all'),
+    Mutant('mask-cache-keyed-by-other-vector-state', JAC, 'self._mask_caches[(d_inputs._names, mode)]',
+           'self._mask_caches[(d_inputs._kind, mode)]', 'C11.mask-cache', nth='all'),
+
     # ---- twins
+    Twin('twin-mask-cache-key-names-only', JAC, 'self._mask_caches[(d_inputs._names, mode)]',
+         'self._mask_caches[d_inputs._names]', nth='all'),
+    Twin('twin-mask-cache-key-temporary-if-form', JAC,
+         '        try:\n            mask = self._mask_caches[(d_inputs._names, mode)]\n        except KeyError:\n'
+         '            mask = d_inputs.get_mask()\n            self._mask_caches[(d_inputs._names, mode)] = mask\n',
+         '        key = (mode, frozenset(d_inputs._names))\n        if key not in self._mask_caches:\n'
+         '            self._mask_caches[key] = d_inputs.get_mask()\n        mask = self._mask_caches[key]\n'),
+    Twin('twin-mask-not-cached', JAC,
+         '        try:\n            mask = self._mask_caches[(d_inputs._names, mode)]\n        except KeyError:\n'
+         '            mask = d_inputs.get_mask()\n            self._mask_caches[(d_inputs._names, mode)] = mask\n',
+         '        mask = d_inputs.get_mask()\n'),
     # ---- shapes accepted after the robustness round (behaviour-preserving refactors)
     Twin('twin-coo-build-keys-lookup-tuple-index', COO,
          '        start = end = 0\n'
